@@ -62,8 +62,15 @@ def proof_gate(pid, thorough):
             info['problems'].append('theorem %s has no Print Assumptions' % t)
     # forbidden vernacular anywhere in the development
     bad = []
+    # the development = the files of _CoqProject plus the extraction file; a .v file lying in the tree without being listed is not
+    # compiled, not imported and not part of it (it is reported in the evidence notes)
+    listed = set(l.strip() for l in open(os.path.join(COQ, '_CoqProject')) if l.strip().endswith('.v')) | {'extract/Extract.v'}
+    stray = []
     for root, _, files in os.walk(COQ):
         for fn in files:
+            if fn.endswith('.v') and os.path.relpath(os.path.join(root, fn), COQ) not in listed:
+                stray.append(os.path.relpath(os.path.join(root, fn), COQ))
+                continue
             if fn.endswith('.v'):
                 txt = open(os.path.join(root, fn)).read()
                 txt = re.sub(r'\(\*.*?\*\)', '', txt, flags=re.S)
@@ -72,6 +79,7 @@ def proof_gate(pid, thorough):
                     bad.append('%s: %s' % (os.path.relpath(os.path.join(root, fn), VERIF), m.group(0)))
     if bad:
         info['problems'].append('forbidden vernacular: ' + '; '.join(bad[:5]))
+    info['stray_files'] = stray
     cmd = 'timeout 900 coqc -Q theories MS -Q props MSP props/%s.v' % pid
     rc, out = sh(cmd, cwd=COQ, timeout=1000)
     info['checker_cmd'] = 'make -C /verif setup && cd /verif/coq && ' + cmd
@@ -167,6 +175,8 @@ def main():
 
     gate = proof_gate(pid, tier == 'thorough') if build_ok else {'ok': False, 'problems': ['build failed: ' + out[-400:]], 'theorems': [], 'assumptions': {}}
     rep.proof = gate
+    if gate.get('stray_files'):
+        rep.notes.append('files under coq/ that are not part of the development (not listed in _CoqProject, not compiled): ' + ', '.join(gate['stray_files'][:10]))
     if not gate['ok']:
         rep.violation('proof', 'proof gate: ' + '; '.join(gate['problems'])[:600], {'layer': 'proof', 'theorems_expected_in': 'coq/props/%s.v' % pid, 'problems': gate['problems']})
 
